@@ -22,12 +22,15 @@ import (
 	"sort"
 	"strings"
 	"testing"
+	"time"
 
 	"github.com/spf13/viper"
 	"gopkg.in/yaml.v3"
 
+	bconfig "go.minekube.com/gate/pkg/edition/bedrock/config"
 	jconfig "go.minekube.com/gate/pkg/edition/java/config"
 	liteconfig "go.minekube.com/gate/pkg/edition/java/lite/config"
+	"go.minekube.com/gate/pkg/edition/java/ping"
 	"go.minekube.com/gate/pkg/edition/java/proxy/zzverif/vrt"
 	"go.minekube.com/gate/pkg/gate/config"
 	"go.minekube.com/gate/pkg/util/configutil"
@@ -207,6 +210,16 @@ func fields() []field {
 			c.Config.ForcedHosts = map[string][]string{"play.example.test": append([]string{}, t...)}
 		}})
 	}
+	fh = append(fh,
+		val{"two-hosts-second-missing", func(c *config.Config) {
+			c.Config.ForcedHosts = map[string][]string{"a.example.test": {"server1"}, "b.example.test": {"missing"}}
+		}},
+		val{"two-hosts-ok", func(c *config.Config) {
+			c.Config.ForcedHosts = map[string][]string{"a.example.test": {"server1"}, "b.example.test": {"server2", "server1"}}
+		}},
+		val{"host-without-servers", func(c *config.Config) {
+			c.Config.ForcedHosts = map[string][]string{"a.example.test": nil}
+		}})
 	add("forcedHosts", -1, fh...)
 
 	var tp []val
@@ -276,6 +289,23 @@ func fields() []field {
 		}})
 	}
 	add("lite.routes[0].backend", 1, backends...)
+	// optional members of a route (no constraint of their own: present / absent / non-default
+	// values for the serialize-and-reload half)
+	add("lite.routes[0].options", 1,
+		val{"cachePingTTL=-1s", func(c *config.Config) { r0(c).CachePingTTL = configutil.Duration(-time.Second) }},
+		val{"cachePingTTL=0", func(c *config.Config) { r0(c).CachePingTTL = 0 }},
+		val{"cachePingTTL=90s", func(c *config.Config) { r0(c).CachePingTTL = configutil.Duration(90 * time.Second) }},
+		val{"proxyProtocol", func(c *config.Config) { r0(c).ProxyProtocol = true }},
+		val{"realIP", func(c *config.Config) { r0(c).RealIP = true }},
+		val{"tcpShieldRealIP", func(c *config.Config) { r0(c).TCPShieldRealIP = true }},
+		val{"modifyVirtualHost", func(c *config.Config) { r0(c).ModifyVirtualHost = true }},
+		val{"fallback=none", func(c *config.Config) { r0(c).Fallback = nil }},
+		val{"fallback=empty", func(c *config.Config) { r0(c).Fallback = &liteconfig.Status{} }},
+		val{"fallback=version+players", func(c *config.Config) {
+			r0(c).Fallback = &liteconfig.Status{Version: ping.Version{Protocol: -1, Name: "offline"}, Players: &ping.Players{Online: 0, Max: 20}}
+		}},
+		val{"fallback=players-zero", func(c *config.Config) { r0(c).Fallback = &liteconfig.Status{Players: &ping.Players{}} }},
+	)
 	var strategies []val
 	for _, s := range []string{"", "sequential", "random", "round-robin", "least-connections", "lowest-latency", "Random", "roundrobin", "round_robin", " random", "x"} {
 		s := s
@@ -807,8 +837,28 @@ func runCase(r *vrt.R, id caseID, sets ...func(*config.Config)) {
 	roundTrips(r, id, c)
 }
 
+// bedrockUnset returns a copy in which the three bedrock strings hold their defaults when empty:
+// in that section "" is not a setting but "unset" (BedrockConfig.ToConfig substitutes exactly
+// these defaults), so a loader that decodes over the defaults may legitimately hand back the
+// default where the serialized document omitted the empty string.
+func bedrockUnset(c *config.Config) *config.Config {
+	cc := *c
+	b := &cc.Config.Bedrock
+	if b.GeyserListenAddr == "" {
+		b.GeyserListenAddr = bconfig.DefaultConfig.GeyserListenAddr
+	}
+	if b.UsernameFormat == "" {
+		b.UsernameFormat = bconfig.DefaultConfig.UsernameFormat
+	}
+	if b.FloodgateKeyPath == "" {
+		b.FloodgateKeyPath = bconfig.DefaultConfig.FloodgateKeyPath
+	}
+	return &cc
+}
+
 func roundTrips(r *vrt.R, id caseID, c *config.Config) {
 	want := reflect.ValueOf(c).Elem()
+	wantU := reflect.ValueOf(bedrockUnset(c)).Elem()
 	// (1) YAML -> strict decode
 	y, err := yaml.Marshal(c)
 	if err != nil {
@@ -823,6 +873,9 @@ func roundTrips(r *vrt.R, id caseID, c *config.Config) {
 	}
 	// (2) JSON -> strict decode
 	j, err := json.Marshal(c)
+	if err != nil {
+		j = nil
+	}
 	if err != nil && strings.Contains(err.Error(), "unsupported value: NaN") {
 		// JSON (RFC 8259) has no representation for NaN; only reachable through a parameter of a
 		// DISABLED quota once enabled quotas reject it. Recorded, not asserted.
@@ -849,6 +902,32 @@ func roundTrips(r *vrt.R, id caseID, c *config.Config) {
 		r.Violation("roundtrip/file-reload-failed", fmt.Sprintf("%v: persisted YAML cannot be reloaded: %v", id, err), id)
 	} else if d := diffPath(want, reflect.ValueOf(c3).Elem(), ""); d != "" {
 		r.Violation("roundtrip/file-reload-changed/"+fieldOf(d), fmt.Sprintf("%v: persist -> reload changed %s", id, d), id)
+	}
+	if id.F2 != "" {
+		return // the two further loaders run on the base and on every single deviation (quick budget)
+	}
+	// (4) the same file through the start-up loader (LoadConfig: defaults + lenient decode)
+	v := viper.New()
+	v.SetConfigFile(path)
+	c4, err := LoadConfig(v)
+	if err != nil {
+		r.Violation("roundtrip/startup-load-failed", fmt.Sprintf("%v: persisted YAML cannot be loaded at start-up: %v", id, err), id)
+	} else if d := diffPath(wantU, reflect.ValueOf(bedrockUnset(c4)).Elem(), ""); d != "" {
+		r.Violation("roundtrip/startup-load-changed/"+fieldOf(d), fmt.Sprintf("%v: persist -> LoadConfig changed %s", id, d), id)
+	}
+	// (5) a JSON config file through the file reload path
+	if j != nil {
+		jpath := filepath.Join(tmpDir, "config.json")
+		if err := os.WriteFile(jpath, j, 0o600); err != nil {
+			r.Violation("harness/tmpfile", err.Error(), nil)
+			return
+		}
+		c5, err := loadLiveConfigCandidate(viper.New(), jpath)
+		if err != nil {
+			r.Violation("roundtrip/json-file-reload-failed", fmt.Sprintf("%v: persisted JSON cannot be reloaded: %v", id, err), id)
+		} else if d := diffPath(wantU, reflect.ValueOf(bedrockUnset(c5)).Elem(), ""); d != "" {
+			r.Violation("roundtrip/json-file-reload-changed/"+fieldOf(d), fmt.Sprintf("%v: JSON persist -> reload changed %s", id, d), id)
+		}
 	}
 }
 
